@@ -205,7 +205,7 @@ def _rest(cx: Cx):
                  f"get_agents keeps an agent under [{lf.cond!r}] (path [{assume!r}]) but the exact filter is [{E!r}]: all listed "
                  f"component types (has_component(*args)) and, when a tag is given, a.tag == tag; they differ at {show} (code keeps "
                  f"the agent: {cex['_left']})", where, found=repr(lf.cond), expected=repr(E), counterexample=cex)
-    cx.floor('get_agents returning paths', n, 4)
+    cx.floor('get_agents returning paths', n, 1)
     if not reported:
         cx.ok('R-GUARD', 'get_agents: fresh list, joining order, has_component(*args) template filter, tag filter iff tag is not None',
               where=cx.where(ga), function=ga.qualname, paths=n)
